@@ -370,6 +370,8 @@ private:
 
         ++m_used_size;
 
+        do_ttl_sort(e);
+
         do_access(e);
     }
 
@@ -384,8 +386,25 @@ private:
 
         // push to the end of the ttl list
         m_ttl_list.splice(m_ttl_list.end(), m_ttl_list, e.m_ttl_position);
+        do_ttl_sort(e);
 
         do_access(e);
+    }
+
+    /**
+     * Keeps the ttl list sorted by expire time.  The element must be the last item of the ttl list,
+     * it is moved towards the front past every item that expires later than it does.  That is only
+     * ever the case after update_ttl() reduced the ttl, otherwise this is a single comparison.
+     */
+    auto do_ttl_sort(element& e) -> void
+    {
+        auto ttl_position = e.m_ttl_position;
+        while (ttl_position != m_ttl_list.begin() &&
+               m_elements[*std::prev(ttl_position)].m_expire_time > e.m_expire_time)
+        {
+            --ttl_position;
+        }
+        m_ttl_list.splice(ttl_position, m_ttl_list, e.m_ttl_position);
     }
 
     auto do_erase(size_t element_idx) -> void
